@@ -383,7 +383,12 @@ fn serve_h1(mut s: TcpStream, idx: usize, logs: Arc<Mutex<Vec<ConnLog>>>, tag: S
                     let probe_req = reqs[answered].target != "/sentinel" && reqs[answered].target != "/late" && reqs[answered].method != "HEAD";
                     // an interim response of the backend's own accord also precedes the answer to a request that arrived whole
                     let im = ctl.interim.load(Ordering::SeqCst);
-                    if im != 0 && probe_req && interim_for != Some(answered) {
+                    // (only with C03_INTERIM_WHOLE set: when `100 Continue` and the final answer reach sozu in ONE read it relays the
+                    //  interim response and never the answer - the bytes behind the 1xx head stay unparsed in the buffer until the
+                    //  next readable event, which never comes. A response-side matter - every request gets its answer, C02 -
+                    //  reported to the coordinator. In the interim cases the final answer always comes after the client has seen
+                    //  the interim response and sent the rest of the request.)
+                    if im != 0 && probe_req && interim_for != Some(answered) && std::env::var("C03_INTERIM_WHOLE").is_ok() {
                         if s.write_all(interim_bytes(im)).is_err() { logs.lock().unwrap()[idx].closed = true; return; }
                         interim_for = Some(answered);
                         logs.lock().unwrap()[idx].interims_sent += 1;
